@@ -156,6 +156,9 @@ def _exec(job: dict, fresh: bool = False) -> dict:
     if fresh:
         _WORLDS.pop(tr, None)
     w = _world(tr)
+    if not http and not w.th.is_alive():       # an earlier case ended this serve loop: never run on a dead connection
+        _WORLDS.pop(tr, None)
+        w = _world(tr)
     del W.TRUTH_ALL[:]
     if http:
         del w.client.log[:]
@@ -177,7 +180,9 @@ def _exec(job: dict, fresh: bool = False) -> dict:
         return r
 
     res, hung = W.with_watchdog(body, 40.0 if fresh else 8.0, server_thread=None if http else w.th)
-    server_died = (not http) and bool(w.died)
+    if not http and (hung or not res["errors"] or res["others"]):
+        w.th.join(0.5)                            # give a dying serve loop the time to say why
+    server_died = (not http) and not w.th.is_alive()
     truth = [t for t in W.TRUTH_ALL if t["type"]]
     srv = truth[-1] if truth else None
     o = {"nerr": 0, "nother": 0, "hung": hung, "etype": "", "srvtype": srv["type"] if srv else "", "msg_ok": False,
@@ -343,7 +348,7 @@ def run(ctx: Ctx) -> None:
             if "RaisedWhatWasAsked" in clauses:
                 raise MachineryError(f"harness: the implementation did not raise what the case asked for: {c} {r}")
             sig_base = {"cls": c["cls"], "group": job["exp"]["group"], "msg": c["msg"], "shape": c["shape"],
-                        "site": c["site"], "tr": c["tr"]}
+                        "site": c["site"], "tr": c["tr"], "mode": c["mode"], "chain": c["chain"], "depth": c["depth"]}
             for cl in clauses:
                 if cl == "SuccessAfterFailure":      # not a clause of the statement (connection/worker reuse is C04/C14)
                     ctx.drift.append({"case": c, "follow_up_call_failed": r["info"].get("follow_events")})
